@@ -761,7 +761,12 @@ func crashGen(r *rand.Rand, n int, thorough bool) []Case {
 				kvs = nil
 				n, sz := 5+r.Intn(4), 20000+r.Intn(25000)
 				for j := 0; j < n; j++ {
-					kvs = append(kvs, hxs(userKeys[r.Intn(nk)]+fmt.Sprintf("-huge%d", j))+"="+hx(bytes.Repeat([]byte{byte('a' + j)}, sz+r.Intn(3000))))
+					l := sz + r.Intn(3000)
+					if j == 1+c%2 {
+						// one value of the maximal size (a record above 2^16 bytes) in the middle of the batch
+						l = 65535
+					}
+					kvs = append(kvs, hxs(userKeys[r.Intn(nk)]+fmt.Sprintf("-huge%d", j))+"="+hx(bytes.Repeat([]byte{byte('a' + j)}, l)))
 				}
 				ops = append(ops, "txn "+strings.Join(kvs, ","))
 				tags = append(tags, "huge-batch")
